@@ -1084,15 +1084,17 @@ func run(sc vh.Scenario, dir string, rec *vh.Rec) {
 				ev["res"] = "no-plot"
 				break
 			}
-			var returned int32
+			var returned, refused int32
 			var wgb sync.WaitGroup
 			for k := 0; k < n; k++ {
 				wgb.Add(1)
 				go func() {
 					defer wgb.Done()
-					if sk.ActOnWorkSpace(d.sids["w2"], engine.Plot) == nil {
-						atomic.AddInt32(&returned, 1)
+					// a request beyond the channel's capacity may be refused; it must not wait holding the state lock
+					if sk.ActOnWorkSpace(d.sids["w2"], engine.Plot) != nil {
+						atomic.AddInt32(&refused, 1)
 					}
+					atomic.AddInt32(&returned, 1)
 				}()
 			}
 			allBack := make(chan struct{})
@@ -1101,7 +1103,7 @@ func run(sc vh.Scenario, dir string, rec *vh.Rec) {
 			case <-allBack:
 			case <-time.After(3 * time.Second):
 			}
-			ev["returned"] = int(atomic.LoadInt32(&returned))
+			ev["returned"], ev["refused"] = int(atomic.LoadInt32(&returned)), int(atomic.LoadInt32(&refused))
 			// the plot ends; the plotter needs the state lock for step 3
 			d.cur.finishCh <- "complete"
 			d.g.free = true
